@@ -919,30 +919,28 @@ class Runner:
         self.len_hist: Counter = Counter()
         self.stream_hist: Counter = Counter()
         self.mismatches = 0
+        self.nsample: Counter = Counter()
         self.mismatch_keys: dict[str, tuple] = {}
 
     # -- implementation side
     def report(self, kind, uni, ops, steps):
-        "a run with findings: if observable, shrink + report; internal-only drift is followed up"
-        if not violates(steps):
-            # internal drift only so far: try to make it observable by extending (cheap probes)
-            ops2 = self.make_observable(kind, uni, ops)
-            if ops2 is None:
-                sig = ('internal',) + signature(kind, steps)
-                if sig not in self.seen_sig:
-                    self.seen_sig.add(sig)
-                    _, s = first_bad(steps)
-                    self.ctx.fail(f'{PROP}:{kind}:{opname(s.op)}:{s.bad[0][0]}:internal',
-                                  f'{kind}: internal structures drift after [{" ; ".join(enc_op(kind, o) for o in ops)}]: '
-                                  f'{s.bad[0][2]} (no observable consequence found by the probes)',
-                                  dict(kind=kind, universe=list(uni), ops=ops), found_input=False)
-                return
-            ops = ops2
-            steps = run_real(kind, uni, ops, stop_on_bad=False)
+        """a run with findings.  One report per (kind, op, symptom) of the first thing that is
+        off; if nothing is observable yet, short extensions are probed for a consequence."""
         sig = signature(kind, steps)
         if sig in self.seen_sig:
             return
         self.seen_sig.add(sig)
+        if not violates(steps):
+            # internal drift only so far: try to make it observable by extending (cheap probes)
+            ops2 = self.make_observable(kind, uni, ops)
+            if ops2 is None:
+                _, s = first_bad(steps)
+                self.ctx.fail(f'{PROP}:{kind}:{opname(s.op)}:{s.bad[0][0]}:internal',
+                              f'{kind}: internal structures drift after [{" ; ".join(enc_op(kind, o) for o in ops)}]: '
+                              f'{s.bad[0][2]} (no observable consequence found by the probes)',
+                              dict(kind=kind, universe=list(uni), ops=ops), found_input=False)
+                return
+            ops = ops2
         small = shrink(kind, uni, ops)
         key, what = classify(kind, uni, small)
         self.seen_sig.add(tuple(key.split(':')[1:]))
@@ -986,7 +984,11 @@ class Runner:
             self.out_hist[f'{kind}:{opname(s.op)}:{s.out}'] += 1
 
     def queue(self, kind, uni, ops, steps):
-        self.pending.append((kind, enc_request(kind, uni, ops), uni, ops, [s.rec for s in steps]))
+        req = enc_request(kind, uni, ops)
+        self.pending.append((kind, req, uni, ops, [s.rec for s in steps]))
+        if 3 <= len(ops) <= 8 and self.nsample[kind] < 4 and any(s.out != 'ok' for s in steps):
+            self.nsample[kind] += 1
+            self.ctx.sample(dict(request=req, implementation=[s.rec for s in steps]))
         if len(self.pending) >= 20000:
             self.flush()
 
@@ -1060,7 +1062,7 @@ def parse_ops(ops):
 def run(ctx: Ctx):
     res = lean_phase(ctx, ['Ptx.Props.C18'])
     ctx.coverage['trusted_base'] += [
-        'Python slice.indices / list semantics as transcribed in Ptx/Cont/Slice.lean (compared through the driver on every slice op)',
+        'Python slice.indices / list semantics as transcribed in Ptx/Cont/Basic.lean (compared through the driver on every slice op)',
         'linkseq pointer surgery (_spot/_unlink/_link_at) modelled at list level; pointer consistency is observed '
         '(forward, reversed, iter_from_value, table entry is the chain link), not proved',
         'hash-set / dict iteration order not modelled (internal structures compared sorted)',
@@ -1075,7 +1077,7 @@ def run(ctx: Ctx):
         r.case(kind, uni, ops, 'corpus')
 
     # exhaustive
-    plan = [('full', 2)] + ([('core', 3), ('mini', 5), ('full', 3)] if ctx.thorough else [('mini', 4)])
+    plan = [('full', 2)] + ([('mini', 5)] if ctx.thorough else [('mini', 4)])
     sizes = {}
     for kind in KINDS:
         for level, depth in plan:
